@@ -158,6 +158,9 @@ func ReplicaMain(jobFile, outFile string, only int, variant int) int {
 				// the decoy keeps the same block height and time as the replica (it closes a block
 				// whenever the replica does) and otherwise walks round robin through its own messages
 				if dt := scn.Events[e].Block; dt > 0 {
+					if dt > 100*time.Second {
+						dt = 100 * time.Second // the decoy's minter has 7 s steps: a jump of decades would keep it busy for hours
+					}
 					decoy.NextBlock(dt)
 				} else {
 					for tries := 0; tries < len(decoyScn.Events); tries++ {
@@ -207,11 +210,121 @@ func ReplicaMain(jobFile, outFile string, only int, variant int) int {
 	return 0
 }
 
+// c11UpgradeCases: pre-upgrade states on which the replicas run the whole v1.2.0 handler (the quick
+// tier's C16 cases that exercise the split, the migrations and every kind of hard-coded account).
+func c11UpgradeCases() []c16Case {
+	var out []c16Case
+	for _, c := range c16Cases(false) {
+		if len(out) < 400 {
+			out = append(out, c)
+		}
+	}
+	return out
+}
+
+// ReplicaUpgradeMain is the body of `c4emc replica-upgrade <outfile>`: it runs the upgrade handler on
+// every case and writes one digest of the resulting stores per case. The parent starts the replicas
+// with different TZ environment variables.
+func ReplicaUpgradeMain(outFile string) int {
+	cases := c11UpgradeCases()
+	digs := make([]string, len(cases))
+	genesis := c16Genesis()
+	workers := DefaultWorkers()
+	worlds := make([]*harness.World, workers)
+	var st c16Stats
+	ParallelFor(workers, len(cases), func(wk, i int) {
+		if worlds[wk] == nil {
+			worlds[wk] = harness.NewWorld(genesis, harness.T0)
+		}
+		w := worlds[wk]
+		digs[i] = "upgrade-failed"
+		c16Run(w, cases[i], &st, func(string, string) {}, func(ctx sdk.Context) {
+			digs[i] = harness.Digest(w.App, ctx, harness.T0)
+		})
+	})
+	ob, _ := json.Marshal(digs)
+	if err := os.WriteFile(outFile, ob, 0o644); err != nil {
+		fmt.Fprintln(os.Stderr, err)
+		return 2
+	}
+	return 0
+}
+
+// c11Upgrade: the v1.2.0 upgrade handler executed by processes that differ in their environment
+// (time zone): the state it leaves must be the same.
+func c11Upgrade(rc *RunCtx, self, dir string, cov map[string]interface{}) {
+	// two replicas in the same zone (anything that differs between them is plain non-determinism, e.g.
+	// map order), the others in zones with daylight saving
+	zones := []string{"UTC", "UTC", "Europe/Warsaw", "America/New_York", "Pacific/Chatham"}
+	if !rc.Thorough() {
+		zones = zones[:4]
+	}
+	outs := make([][]string, len(zones))
+	errs := make([]error, len(zones))
+	var wg sync.WaitGroup
+	for r, z := range zones {
+		wg.Add(1)
+		go func(r int, z string) {
+			defer wg.Done()
+			of := filepath.Join(dir, fmt.Sprintf("upgrade.replica%d.json", r))
+			cmd := exec.Command(self, "replica-upgrade", of)
+			cmd.Env = append(os.Environ(), "TZ="+z, fmt.Sprintf("GOMAXPROCS=%d", max(2, 16/len(zones))))
+			cmd.Stderr = os.Stderr
+			if err := cmd.Run(); err != nil {
+				errs[r] = err
+				return
+			}
+			ob, err := os.ReadFile(of)
+			if err != nil {
+				errs[r] = err
+				return
+			}
+			errs[r] = json.Unmarshal(ob, &outs[r])
+		}(r, z)
+	}
+	wg.Wait()
+	for r, e := range errs {
+		if e != nil {
+			rc.Logf("upgrade replica %d (%s) failed: %v", r, zones[r], e)
+			rc.MachineryError = true
+			return
+		}
+	}
+	cases := c11UpgradeCases()
+	// do the two replicas in the same zone agree everywhere? if not, differences are not about zones
+	sameZoneDiffers := false
+	for i := range cases {
+		if i < len(outs[0]) && i < len(outs[1]) && outs[0][i] != outs[1][i] {
+			sameZoneDiffers = true
+		}
+	}
+	diverged := 0
+	for i := range cases {
+		for r := 1; r < len(zones); r++ {
+			if i < len(outs[r]) && i < len(outs[0]) && outs[r][i] != outs[0][i] {
+				diverged++
+				if diverged == 1 {
+					sig, what := "C11:upgrade-depends-on-time-zone", fmt.Sprintf("the v1.2.0 upgrade handler leaves different state in a process with TZ=%s than with TZ=%s", zones[r], zones[0])
+					if zones[r] == zones[0] || sameZoneDiffers {
+						sig, what = "C11:upgrade-not-deterministic", "two processes in the same environment executing the v1.2.0 upgrade handler on the same pre-upgrade state leave different state"
+					}
+					rc.Violate(&explore.Violation{Property: "C11", Sig: sig,
+						What:   fmt.Sprintf("%s (pre-upgrade state %s: owner pools %v, hard-coded accounts %v)", what, cases[i].Label, cases[i].OwnerPools, cases[i].Accounts),
+						Detail: map[string]interface{}{"case": cases[i], "zones": []string{zones[0], zones[r]}}})
+				}
+				break
+			}
+		}
+	}
+	cov["upgrade"] = map[string]interface{}{"pre_upgrade_states": len(cases), "replica_time_zones": zones, "diverging_states": diverged}
+	rc.Logf("upgrade: %d pre-upgrade states x %d time zones compared", len(cases), len(zones))
+}
+
 func runC11(rc *RunCtx) {
 	replicas, depth := 2, map[string]int{"c01": 3, "c05": 3, "c06": 4, "c10": 3, "c13": 2, "c15": 3, "c17": 3, "c11dist": 4}
 	if rc.Thorough() {
 		replicas = 4
-		depth = map[string]int{"c01": 4, "c05": 4, "c06": 5, "c10": 4, "c13": 3, "c15": 4, "c17": 4, "c11dist": 6}
+		depth = map[string]int{"c01": 4, "c05": 4, "c06": 5, "c10": 4, "c13": 3, "c15": 3, "c17": 4, "c11dist": 6}
 	}
 	self, err := os.Executable()
 	if err != nil {
@@ -315,6 +428,9 @@ func runC11(rc *RunCtx) {
 			samples = append(samples, map[string]interface{}{"scenario": name, "history": names(events, paths[len(paths)/2])})
 		}
 		rc.Logf("%s: %d histories x %d replicas compared", name, len(paths), replicas)
+	}
+	if !rc.MachineryError {
+		c11Upgrade(rc, self, dir, cov)
 	}
 	cov["states"] = states
 	cov["transitions"] = transitions
